@@ -158,7 +158,18 @@ def check_capture(w, lane, tcap):
     for p in range(w.s_len):
         if not mask[p] or np.asarray(w.c_locs)[w.ppo_offset + p] < 0:
             continue
-        body, term = waveform(w, w.ppo_offset + p, lane)
+        # the waveform a port / state element observes is the one of the LINE on its input pin; the output slot must be an exact alias
+        # of it (location and capacity) -- the oracle reads the waveform through the line, not through the slot
+        n = w.circuit.s_nodes[p]
+        line = n.ins[0] if len(n.ins) > 0 else None
+        idx = w.ppo_offset + p
+        if line is not None and int(np.asarray(w.c_locs)[line.index]) >= 0:
+            lo, ca = np.asarray(w.c_locs), np.asarray(w.c_caps)
+            if int(lo[idx]) != int(lo[line.index]) or int(ca[idx]) != int(ca[line.index]):
+                return (f'position {p}: output slot (location {int(lo[idx])}, capacity {int(ca[idx])}) is not an exact alias of the observed line '
+                        f'{line.index} (location {int(lo[line.index])}, capacity {int(ca[line.index])})')
+            idx = line.index
+        body, term = waveform(w, idx, lane)
         if term is None:
             continue
         fin = [t for t in body if t > TMIN]
